@@ -11,6 +11,7 @@ import Mahotas.Proofs.C19Haralick
 import Mahotas.Proofs.C19Zernike
 import Mahotas.Proofs.C19Necklace
 import Mahotas.Proofs.C19HaralickFeat
+import Mahotas.Proofs.C19CoocData
 namespace Mahotas.C19
 open Mahotas Mahotas.Generated
 
@@ -307,6 +308,31 @@ theorem C19_haralick_features_def :
     fun sx sy hx hy px' py' => corr_bounds cov vx vy sx sy (cov_sq_le m P h0 h1) hx hy px' py',
     sumVar_nonneg m P h0 f6, diffVar_nonneg m _⟩
 
+/-- **C19-T2 on the data arrays (what `f[::-1, ::-1, …]` and `swapaxes(0,1)` do to the driver's input).**
+`C19_cooc_rot180` / `C19_cooc_transpose` speak about index maps; this theorem is about the arrays the model receives.
+For every image of any rank with a full C-order data array and values in `[0, m)`, every direction of matching rank:
+the image whose **data array is reversed** reads, at every inside position `p`, the value at the mirrored position
+`shape − 1 − p`, and the symmetric co-occurrence matrix the model computes from it (`symFold ∘ coocModel`, what the
+driver prints and `haralick13` consumes) is the **same array**; the C-contiguous copy of the axis swap (`swapImg`,
+element `p` = element `swap01 p`) with the swapped direction gives the same array too; hence every feature vector
+`haralick13` computes is identical (exact equality of `Float` lists). -/
+theorem C19_cooc_invariance_on_data (m : Nat) (im : Img Int) (d : List Int)
+    (hsz : im.data.size = shapeSize im.shape) (hd : d.length = im.shape.length)
+    (hv : ∀ p, 0 ≤ im.getD p 0 ∧ im.getD p 0 < (m : Int)) :
+    let rev : Img Int := { shape := im.shape, data := im.data.reverse }
+    (∀ p, inside im.shape p = true → rev.getD p 0 = im.getD (revPos im.shape p) 0) ∧
+    symFold m (coocModel m rev d) = symFold m (coocModel m im d) ∧
+    (∀ p, inside (swap01 im.shape) p = true → (swapImg im).getD p 0 = im.getD (swap01 p) 0) ∧
+    symFold m (coocModel m (swapImg im) (swap01 d)) = symFold m (coocModel m im d) ∧
+    haralick13 m (symFold m (coocModel m rev d)).toList = haralick13 m (symFold m (coocModel m im d)).toList ∧
+    haralick13 m (symFold m (coocModel m (swapImg im) (swap01 d))).toList =
+      haralick13 m (symFold m (coocModel m im d)).toList := by
+  intro rev
+  have h1 := symFold_reverse m im d hsz hd hv
+  have h2 := symFold_swap m im d hd hv
+  exact ⟨fun p hp => getD_reverse_img im hsz p hp, h1, fun p hp => swapImg_getD im p hp, h2,
+    by rw [h1], by rw [h2]⟩
+
 /-! non-vacuity -/
 example : coocCount [2, 3] (fun p => ([0, 1, 1, 1, 0, 1].getD (ravelI [2, 3] p) 0)) [0, 1] 1 1 = 1 ∧
     coocSym [2, 3] (fun p => ([0, 1, 1, 1, 0, 1].getD (ravelI [2, 3] p) 0)) [0, 1] 0 1 = 3 := by decide
@@ -337,4 +363,12 @@ example :
     contrastG 0 Nat.cast 2 (pminusG 0 2 P) = 1 / 2 ∧ sumAvgG 0 Nat.cast 2 (pplusG 0 2 P) = 5 / 4 ∧
     idmG 0 1 Nat.cast 2 P = 3 / 4 ∧ varG 0 Nat.cast (colSumG 0 2 P) 2 = 15 / 64 ∧
     covG 0 Nat.cast 2 P (meanG 0 Nat.cast (colSumG 0 2 P) 2) (meanG 0 Nat.cast (rowSumG 0 2 P) 2) = -1 / 64 := by
+  decide +kernel
+/-- a 2×3 image with levels 0..2, direction (0,1): reversed data and swapped axes give the same symmetric matrix -/
+example :
+    let im : Img Int := { shape := [2, 3], data := #[0, 1, 2, 2, 1, 1] }
+    symFold 3 (coocModel 3 { shape := [2, 3], data := im.data.reverse } [0, 1]) = #[0, 1, 0, 1, 2, 2, 0, 2, 0] ∧
+    symFold 3 (coocModel 3 im [0, 1]) = #[0, 1, 0, 1, 2, 2, 0, 2, 0] ∧
+    (swapImg im).data = #[0, 2, 1, 1, 2, 1] ∧
+    symFold 3 (coocModel 3 (swapImg im) [1, 0]) = #[0, 1, 0, 1, 2, 2, 0, 2, 0] := by
   decide +kernel
